@@ -509,4 +509,4 @@ def check(ctx):
     r8_queue_fits_one_tick(ctx)
 
 
-CLAUSE += '; the stream served is the accepted stream, wrapped and otherwise only moved'
+CLAUSE += ' Also: the stream served is the accepted stream, wrapped and otherwise only moved.'
